@@ -42,6 +42,6 @@ void SkipRecord(Byte Header, char const* Name, FILE* f)
     __CPROVER_ensures(gf[0].pos >= g_o_pos0)
     __CPROVER_ensures(Header != FileHeaderStartAdr || gf[0].pos == g_o_pos0 + 4)
     __CPROVER_ensures(Header != FileHeaderEnd || gf[0].pos == g_o_pos0)
-    __CPROVER_assigns(gf[0].pos, gf[0].n_read_calls, gf[0].io_error, verif_errno, g_exit_code, gf_script_i);
+    __CPROVER_assigns(gf[0].pos, gf[0].n_read_calls, gf[0].io_error, verif_errno, g_exit_code, gf_script_i, gf_cell_addr, gf_cell_val, gf_cell_valid);
 #endif
 #endif
